@@ -9,7 +9,7 @@ from ..sched import replay_case, run_case
 from ..spaces import shard_iter
 
 ID = "C14"
-BUDGET = {"quick": 100, "thorough": 2400}
+BUDGET = {"quick": 100, "thorough": 900}
 MONITORS = [mon_c14]
 
 
@@ -87,7 +87,11 @@ def nontrivial(view):
 
 
 def run_shard(tier, k, n, acc):
-    for c in shard_iter(itertools.chain(cases(tier), early_cases(tier)), k, n, acc):
+    from ..spaces import cross_families, foreign_quick_cases
+    its = [cases(tier), early_cases(tier), cross_families(tier)]
+    if tier != "quick":
+        its.append(foreign_quick_cases("c14"))
+    for c in shard_iter(itertools.chain(*its), k, n, acc):
         run_case(acc, c, MONITORS, nontrivial)
 
 
